@@ -603,7 +603,7 @@ def _(c):
         yield it[0], it[1]
 
 
-@c.loop(0, modifies=["out"], tags=["C01"])
+@c.loop(0, modifies=["out"], tags=["C01"], over="self._mailbox.add_listener(self, _send, _stop)")
 def _(c, L):
     """replay loop: the first k stored messages have been sent to this connection, in order"""
     E, S_ = L.entry, c.post
